@@ -420,7 +420,9 @@ def _limit_cases(quick):
         for fl in ((), ("MINIMALDATA",)):
             ev(bytes([1, v]) + b"\x51", flags=fl, tag="minpush-value-%02x" % v)
     # truncated pushes
-    for s in (b"\x4c", b"\x4d", b"\x4d\x01", b"\x4e\x01\x00\x00", b"\x05\x01\x02", b"\x4c\x05\x01", b"\x4d\x02\x00\x01"):
+    for s in (b"\x4c", b"\x4d", b"\x4d\x01", b"\x4e\x01\x00\x00", b"\x05\x01\x02", b"\x4c\x05\x01", b"\x4d\x02\x00\x01",
+              b"\x4e\x00\x00\x00\x80", b"\x4e\xff\xff\xff\xff", b"\x4e\xfb\xff\xff\xff", b"\x4e\x00\x00\x01\x00", b"\x4e\x01\x00\x00\x00",
+              b"\x4d\xff\xff", b"\x4c\xff"):
         ev(b"\x51" + s, tag="truncated-%s" % s.hex())
         ev(b"\x00\x63" + s, tag="truncated-unexec-%s" % s.hex())
     # hash opcodes x operand classes
